@@ -96,9 +96,13 @@ struct Params {
 }
 
 fn valid_auth_cookie(r: &mut Rng, client: &SocketAddr, secret: &[u8], age: i64, expiry: u64, ip_other: bool) -> Vec<u8> {
+    let ip = if ip_other { "203.0.113.77".parse().unwrap() } else { client.ip() };
+    valid_auth_cookie_for(r, ip, client.port(), secret, age, expiry)
+}
+fn valid_auth_cookie_for(r: &mut Rng, ip: std::net::IpAddr, port: u16, secret: &[u8], age: i64, expiry: u64) -> Vec<u8> {
     let c = AuthCookie {
         timestamp: (FIXED_NOW as i64 - age) as u64,
-        client_addr: if ip_other { SocketAddr::new("203.0.113.77".parse().unwrap(), client.port()) } else { SocketAddr::new(client.ip(), r.below(60000) as u16) },
+        client_addr: SocketAddr::new(ip, if r.chance(1, 2) { port } else { r.below(60000) as u16 }),
         user_name: format!("Cookie{}", r.below(100)),
         user_id: Uuid::from_u128(((r.next() as u128) << 64) | r.next() as u128),
         target: if r.chance(1, 2) { Some("srv-old".into()) } else { None },
@@ -415,6 +419,19 @@ fn main() {
                     }
                     for body in [&b"{}"[..], &b"[]"[..], &b"null"[..], &b"\xff\xfe"[..], &b"{\"timestamp\":1}"[..]] {
                         variants.push((format!("signed-garbage {:?}", body), Intent::Transfer, s.clone(), Some(passage_protocol::cookie::sign(body, &secret_v))));
+                    }
+                    // addresses that are different IPs but share their low 32 bits / an embedded IPv4
+                    let near: [(&str, &str); 8] = [("198.51.100.7", "::c633:6407"), ("::c633:6407", "198.51.100.7"),
+                        ("198.51.100.7", "::ffff:198.51.100.7"), ("::ffff:198.51.100.7", "198.51.100.7"),
+                        ("::1", "0.0.0.1"), ("0.0.0.1", "::1"), ("::ffff:10.0.0.1", "::10.0.0.1"), ("2001:db8::1", "2001:db8::1")];
+                    for (cl, ck) in near.iter() {
+                        let cl_sa = SocketAddr::new(cl.parse().unwrap(), 40_001);
+                        let payload = valid_auth_cookie_for(&mut r, ck.parse().unwrap(), 40_001, &secret_v, 7, expiry);
+                        let mut p = base_params(&mut r, Intent::Transfer);
+                        p.auth_payload = Some(payload);
+                        let ads = base_ads(&mut r);
+                        let sc = build("C02", &mut r, &p, ads, s.clone(), cl_sa, format!("near-ip client {} cookie {}", cl, ck));
+                        run(sc, &mut r);
                     }
                     variants.push(("valid-huge-expiry".into(), Intent::Transfer, s.clone(), Some(valid.clone())));
                     variants.push(("old-huge-expiry".into(), Intent::Transfer, s.clone(), Some(valid_auth_cookie(&mut r, &client, &secret_v, 1_000_000, expiry, false))));
